@@ -90,6 +90,13 @@ def run_reports(prop, tier, seed, exports=False, gantt=False, replay=None, procs
         for focus in ("buffer", "indicator", "basic"):
             extra += [q for q in F_mixed.fam_mixed(tier, seed, focus, n=(20 if full else 4) if prop == "C11" else (12 if full else 3))]
         problems = FT.number([json.loads(json.dumps(q)) for q in problems + extra])
+    if not replay and prop == "C16":
+        # the same problems under names that read as numbers ("12", "1_2", "007", ...): an export shows names as given
+        import variants as VR
+        renamed = [VR.rename(q, "number_like") for q in problems[: (12 if full else 4)] if not q["cumuls"]]
+        for q in renamed:
+            q["tag"] = q["tag"] + "/number-like-names"
+        problems = FT.number([json.loads(json.dumps(q)) for q in problems + renamed])
     V, st_enum = tlc.enumerate_V(problems)
     k = per_problem or ((12 if full else 4) if not gantt else (5 if full else 2))
     jobs = []
